@@ -219,7 +219,21 @@ def m_replace(ip, s, old, new, count=-1):
         raise Unsupported("replace with symbolic count")
     if count == 1:
         return mkstr(z3.Replace(to_z3str(s), to_z3str(old), to_z3str(new)), _isb(s))
-    raise Unsupported("replace-all on symbolic string (undecided by every installed solver)")
+    # replace-all: neither solver decides goals over str.replace_all, so it is an uninterpreted function of its three
+    # arguments (equal arguments give equal results) with two lemma instances that are theorems of str.replace:
+    # no occurrence of `old` -> unchanged; `old` empty is not modelled
+    so, sn = to_z3str(old), to_z3str(new)
+    if isinstance(old, (str, bytes)) and len(old) == 0:
+        raise Unsupported("replace of the empty string")
+    r = _F_REPLACE_ALL(to_z3str(s), so, sn)
+    p = core.cur()
+    p.add(z3.Implies(z3.Not(z3.Contains(to_z3str(s), so)), r == to_z3str(s)))
+    if isinstance(old, (str, bytes)) and isinstance(new, (str, bytes)) and len(new) >= len(old):
+        p.add(z3.Length(r) >= z3.Length(to_z3str(s)))
+    return mkstr(r, _isb(s))
+
+
+_F_REPLACE_ALL = z3.Function("py_replace_all", z3.StringSort(), z3.StringSort(), z3.StringSort(), z3.StringSort())
 
 
 def m_join(ip, sep, items):
